@@ -426,7 +426,7 @@ func run(r *core.R) {
 		"removed_stale_nat", "stale_nat_immediate", "cleaner_skipped_refreshed", "cleaner_fwd_repointed_skip", "stale_ccq_entry_processed",
 		"stale_snapshot_judged", "equal_ts_pair_judged", "tolerated_iterdelete_recreated", "rst_residual_state", "dsr_entry",
 		"pkt_midflow_miss", "pkt_fwd_hit_no_reverse", "fwd_key_recreated", "liveness_due_entries", "boundary_exact_idle_kept",
-		"cleaner_ran_mid_iteration", "fallback_removed")
+		"cleaner_ran_mid_iteration", "fallback_removed", "quiesce_boundary_jump")
 
 	h := &H{r: r, keyConn: map[string]int{}, obs: map[string]map[int64]int64{}, absent: map[string]bool{}, fwdJudged: map[string]fwdJudgement{}, expiredRemoved: map[string]bool{}}
 	thorough := r.Tier == "thorough"
@@ -520,6 +520,7 @@ func run(r *core.R) {
 	// ---- quiesce: packets and faults stop, three scans two seconds apart
 	h.chaos = false
 	h.advance(int64(2500*time.Millisecond), int64(2500*time.Millisecond))
+	h.boundaryJump()
 	var due []string
 	for _, k := range h.ct.sortedKeys() {
 		if h.due(k) {
@@ -647,5 +648,38 @@ func (h *H) timeJump() {
 		}
 	}
 	r.Logf("  time +%v", time.Duration(d))
+	h.advance(d, d)
+}
+
+// boundaryJump (start of the quiesce phase): land the clocks exactly on, one
+// nanosecond before, or one nanosecond after the instant at which one not yet
+// expired tracking entry crosses its timeout.  The scanner's cached kernel
+// time is refreshed by the first judgement of the next scan (Go time moved by
+// more than a second), so that scan judges with exactly this "now".
+func (h *H) boundaryJump() {
+	r := h.r
+	var cands []string
+	for _, k := range h.ct.sortedKeys() {
+		e := h.ct.m[k]
+		if e.val[offType] == typFwd {
+			continue
+		}
+		s := decode(e.val)
+		if s.ls+int64(refTimeout(h.to, keyProto(k), s)) >= h.ktime+1 {
+			cands = append(cands, k)
+		}
+	}
+	if len(cands) == 0 || !r.Src.Chance(700, "quiesce_boundary") {
+		return
+	}
+	k := cands[r.Src.Intn(len(cands), "quiesce_boundary_entry")]
+	s := decode(h.ct.m[k].val)
+	delta := []int64{0, 1, -1}[r.Src.Intn(3, "quiesce_boundary_delta")]
+	d := s.ls + int64(refTimeout(h.to, keyProto(k), s)) + delta - h.ktime
+	if d <= 0 {
+		return
+	}
+	r.Logf("quiesce: time +%v to the timeout boundary of %s (%+dns)", time.Duration(d), h.kname(k), delta)
+	r.Probe("quiesce_boundary_jump")
 	h.advance(d, d)
 }
